@@ -197,7 +197,8 @@ def order(ctx, rng, idx):
     iname = gen.EXPLICIT[idx % len(gen.EXPLICIT)]
     n = int(rng.integers(1, 4))
     a = rng.uniform(0.5, 1.5, n); om = rng.uniform(1.0, 4.0, n); ph = rng.uniform(0, 6, n)
-    fun = lambda k, t, d: [-a * d[0] ** 2 * 0.5 + np.sin(om * t + ph) * d[0] + np.cos(2 * om * t) * 2.0]
+    # cubic damping keeps the solution bounded for either sign (a quadratic term lets y run away once the forcing drives it negative)
+    fun = lambda k, t, d: [-a * d[0] ** 3 * 0.3 + np.sin(om * t + ph) * d[0] + np.cos(2 * om * t) * 2.0]
     y0 = rng.uniform(0.5, 1.5, n); t0 = float(rng.uniform(-1, 1)); T = t0 + 1.0
     from scipy.integrate import solve_ivp      # independent reference (not a flowdyn integrator)
     sol = solve_ivp(lambda t, y: fun(0, t, [y])[0], (t0, T), y0, method="DOP853", rtol=1e-13, atol=1e-14)
@@ -208,7 +209,7 @@ def order(ctx, rng, idx):
         errs.append(np.max(np.abs(_solve_ode(iname, fun, y0, t0, T, ns) - ref)))
     errs = np.array(errs)
     p = np.log2(errs[:-1] / errs[1:])
-    ctx.describe(integrator=iname, ode="y'=-a y^2/2+sin(w t+phi) y+2cos(2 w t)", a=a, omega=om, phase=ph, y0=y0, t0=t0, errors=errs, observed_orders=p)
+    ctx.describe(integrator=iname, ode="y'=-0.3 a y^3+sin(w t+phi) y+2cos(2 w t)", a=a, omega=om, phase=ph, y0=y0, t0=t0, errors=errs, observed_orders=p)
     floor = errs[-1] < 1e-11
     ctx.true("order", floor or np.min(p[-2:]) >= ORDER[iname] - 0.3, "order/%s/below-nominal" % iname,
              {"orders": p, "errors": errs, "nominal": ORDER[iname]}, cls="order:" + iname)
